@@ -155,6 +155,13 @@ def add_requests(rng, cfg, tier):
     if c["ncpu"] > 1:
         sub = sorted(rng.sample(range(1, c["ncpu"] + 1), rng.randint(1, c["ncpu"] - 1)))
         add(dict(NOREQ, cpus=sub), kind="cpus", cpus=sub)
+        # an explicit list together with a positional selection: exactly the listed cpus are read
+        pos2 = [[], [], []]
+        for d in range(c["ndim"]):
+            lo = 2 * rng.randint(0, S // 2 - 1)
+            pos2[d] = [lo, 2 * rng.randint(lo // 2 + 1, S // 2)]
+        sub2 = sorted(rng.sample(range(1, c["ncpu"] + 1), rng.randint(1, c["ncpu"] - 1)))
+        add(dict(NOREQ, cpus=sub2, pos=pos2), kind="position+cpus", cpus=sub2, pos=pos2)
         add(dict(NOREQ, cpus=[c["ncpu"]]), kind="cpus", cpus=[c["ncpu"]])
     # projections of the full load: groups and variable subsets (C13), sorting (C14)
     names = ["level", "cpu", "dx"] + [f"position_{x}" for x in "xyz"[:c["ndim"]]] + c["hydro"] \
